@@ -57,6 +57,17 @@ func (pq *clientPacketQueue) addToQueue(header *parser.PacketHeader, v []any) {
 	}
 
 	replacementAck := func(args []reflect.Value) (results []reflect.Value) {
+		// Every try has an acknowledgement (and a time-out) of its own. One that reports
+		// after the packet has left the queue - a re-send was acknowledged first - must
+		// not touch the queue: it would drop another packet, or slice an empty queue.
+		pq.mu.Lock()
+		if len(pq.queuedPackets) == 0 || pq.queuedPackets[0] != packet {
+			vhook.Event("rq.stale", "q", pq, "id", int(packet.id))
+			pq.mu.Unlock()
+			return nil
+		}
+		pq.mu.Unlock()
+
 		errV := args[0]
 		hasError := !errV.IsNil()
 
